@@ -24,18 +24,38 @@ def fbits(fs):
 
 
 # ---------------------------------------------------------------------------------------------
+def _history(rnd2, dec, stats, mk_iface, mmap, top, **kw):
+    """legal but unusual histories before the next `add`: the decoder has already been elaborated
+    (elaboration must leave it as it was), or an `add` of ANOTHER interface object carrying the same
+    memory map has just been refused for its address (a refused call must leave nothing behind)"""
+    from amaranth.hdl import Fragment
+    if rnd2.random() < .12:
+        Fragment.get(dec, None)
+        stats["elaborated_before_add"] += 1
+    if rnd2.random() < .10:
+        old = mk_iface()
+        old.memory_map = mmap
+        try:
+            dec.add(old, name="refused", addr=top, **kw)       # outside the address space: refused by the memory map
+        except ValueError:
+            stats["refused_then_other_interface"] += 1
+
+
 def run_csr(case):
     rnd = lib.rng_for(case["seed"], case["idx"], 606)
+    rnd2 = lib.rng_for(case["seed"], case["idx"], 616)      # history variations, own stream
     aw = rnd.randint(2, 8)
     dw = rnd.choice([8, 16, 32])
     al = rnd.choice([0, 0, 1, 2, 3])
     dec = csr.Decoder(addr_width=aw, data_width=dw, alignment=al)
     subs = []
-    stats = {"subs": 0, "explicit": 0, "padded": 0, "unassigned_vectors": 0, "vectors": 0, "refused_adds": 0}
+    stats = {"subs": 0, "explicit": 0, "padded": 0, "unassigned_vectors": 0, "vectors": 0, "refused_adds": 0,
+             "elaborated_before_add": 0, "refused_then_other_interface": 0}
     for i in range(rnd.randint(0, 5)):
         saw = rnd.randint(1, aw)
         sb = csr.Interface(addr_width=saw, data_width=dw, path=(f"sub{i}",))
         sb.memory_map = MemoryMap(addr_width=saw, data_width=dw)
+        _history(rnd2, dec, stats, lambda: csr.Interface(addr_width=saw, data_width=dw, path=(f"old{i}",)), sb.memory_map, 1 << aw)
         try:
             how = rnd.random()
             if how < .5:
@@ -60,7 +80,7 @@ def run_csr(case):
         lines.append(f"sub {s} {sb.addr_width}")
         if e - s > (1 << sb.addr_width):
             stats["padded"] += 1
-    sim = Simulator(simutil.wrap(dec))
+    sim = simutil.simulator(simutil.wrap(dec), case, stats)
     sim.add_clock(1e-6)
     obs, fails = [], []
     sweep = aw <= 6
@@ -108,6 +128,7 @@ def run_csr(case):
 # ---------------------------------------------------------------------------------------------
 def run_wb(case):
     rnd = lib.rng_for(case["seed"], case["idx"], 707)
+    rnd2 = lib.rng_for(case["seed"], case["idx"], 717)      # history variations, own stream
     dw = rnd.choice([8, 16, 32, 64])
     gran = rnd.choice([g for g in (8, 16, 32, 64) if g <= dw])
     gb = int(math.log2(dw // gran))
@@ -116,7 +137,8 @@ def run_wb(case):
     al = rnd.choice([0, 0, 1, 2, 3])
     dec = wishbone.Decoder(addr_width=aw, data_width=dw, granularity=gran, features=feats, alignment=al)
     subs = []
-    stats = {"subs": 0, "sparse": 0, "explicit": 0, "vectors": 0, "nobody_selected": 0, "responses": 0, "feature_mismatch": 0}
+    stats = {"subs": 0, "sparse": 0, "explicit": 0, "vectors": 0, "nobody_selected": 0, "responses": 0, "feature_mismatch": 0,
+             "elaborated_before_add": 0, "refused_then_other_interface": 0}
     maw_dec = max(1, aw + gb)
     for i in range(rnd.randint(0, 5)):
         sparse = rnd.random() < .3
@@ -132,6 +154,8 @@ def run_wb(case):
         if maw > maw_dec:
             continue
         sb.memory_map = MemoryMap(addr_width=maw, data_width=sg)
+        _history(rnd2, dec, stats, lambda: wishbone.Interface(addr_width=saw, data_width=sdw, granularity=sg, features=sf, path=(f"old{i}",)),
+                 sb.memory_map, 1 << maw_dec, sparse=sparse)
         try:
             if rnd.random() < .6:
                 dec.add(sb, sparse=sparse, name=None if rnd.random() < .5 else f"s{i}")
@@ -151,7 +175,7 @@ def run_wb(case):
     lines = [f"case {aw} {gb} {fbits(feats)} {len(subs)}"]
     for sb, sparse, sf, maw in subs:
         lines.append(f"sub {wins[id(sb.memory_map)][0]} {maw} {len(sb.adr)} {sb.data_width} {len(sb.sel)} {fbits(sf)}")
-    sim = Simulator(simutil.wrap(dec))
+    sim = simutil.simulator(simutil.wrap(dec), case, stats)
     sim.add_clock(1e-6)
     obs, fails = [], []
     bus = dec.bus
@@ -309,7 +333,7 @@ def run_treeflat(case):
     flat = csr.Multiplexer(fmm)
     top.submodules.flat = flat
     d = Signal(name="verif_dummy"); top.d.sync += d.eq(~d)
-    sim = Simulator(top)
+    sim = simutil.simulator(top, case)
     sim.add_clock(1e-6)
     fails = []
     stats = {"cycles": 0, "registers": len(infos), "txn_done": 0, "same_low_bits_other_window": 0}
